@@ -45,7 +45,13 @@ def gen_case(rng, thorough, expiry=False):
             rule = {"when": {"pattern": {"a": "?x"}}, "action": A}
             if dw: rule["deleteWith"] = dw
             if js and rng.random() < 0.6: via_action({"t": "addrule", "id": n, "rule": rule}, "make")
-            else: ops.append({"op": "addRule", "id": n, "rule": rule})
+            else:
+                ops.append({"op": "addRule", "id": n, "rule": rule})
+                if rng.random() < 0.3:
+                    # an update of the dependent that the state rejects (the index cannot sort a mixed array): the stored version stays,
+                    # and still dies with what it names
+                    bad = copy.deepcopy(rule); bad["when"]["pattern"]["wants"] = [1, "x"]
+                    ops.append({"op": "addRule", "id": n, "rule": bad})
         elif js and r < 0.5:
             f = {"v": rng.choice([1, "x", True]), "k": n}
             if dw: f["deleteWith"] = dw
@@ -80,6 +86,9 @@ def gen_case(rng, thorough, expiry=False):
             else: ops.append({"op": rng.choice(["remFact", "remFact", "remRule"]), "id": n if z < 0.85 else rng.choice(["ghost", "!%s.disabled" % n, "!%s.note" % n])})
             ops.append({"op": "snapshot"})
     for o in ops: o["loc"] = "a"
+    if not expiry and rng.random() < 0.1:
+        # one id too long to be a term of the fact index (the index skips strings of 1024 characters and more): dependencies on it count all the same
+        ops = json.loads(json.dumps(ops).replace(nodes[-1], nodes[-1] + "L" * 1100))
     return ops
 
 def main():
@@ -110,6 +119,29 @@ def main():
                                  {"case": {kk: (v if kk != "ops" else v[: k + 2]) for kk, v in c.items()}, "impl_snapshot": snap, "spec_left": sp}, tag="closure")
                     break
     lr.stats["closure_spec_checked"] = spec_checked
+    # a storage write that fails inside a deletion (the removal of the id itself or of any dependent, at any depth) is reported by the operation:
+    # otherwise the caller believes in a deletion that a reload undoes
+    fsample = [c for c in cases if not any(o["op"] in ("sleep", "event") for o in c["ops"])][: (60 if not ck.thorough else 600)]
+    base_out = run_cases(lr.drv, [{k_: v_ for k_, v_ in c.items()} for c in fsample])
+    fcases = []
+    for c, o in zip(fsample, base_out):
+        ws = [r.get("writes", 0) if isinstance(r, dict) else 0 for r in (o.get("outs") or [])]
+        for k, op in enumerate(c["ops"]):
+            if op["op"] in ("remFact", "remRule") and 0 < k < len(ws) and ws[k] - ws[k - 1] >= 2:
+                for wn in range(ws[k - 1] + 1, ws[k] + 1):
+                    fcases.append((dict(copy.deepcopy(c), failAt=wn), k))
+    if not ck.thorough: fcases = fcases[:200]
+    fout = run_cases(lr.drv, [c for c, _ in fcases])
+    for (c, k), o in zip(fcases, fout):
+        ck.count({"failAt": c["failAt"], "ops": c["ops"], "s": c["state"]})
+        lr.stats["cascade_fault_points"] += 1
+        outs = o.get("outs") or []
+        if k >= len(outs) or not isinstance(outs[k], dict): continue
+        r = outs[k]
+        # (the number of writes of a cascade over a cyclic graph depends on Go's map order: the fault counts only if this run reached it)
+        if r.get("err") is None and "ok" in r and r.get("writes", 0) >= c["failAt"] and (outs[k - 1].get("writes", 0) if isinstance(outs[k - 1], dict) else 0) < c["failAt"]:
+            ck.violation("storage write %d failed inside %s(%s) (%s state) but the operation reported success: %s" % (c["failAt"], c["ops"][k]["op"], c["ops"][k]["id"][:20], c["state"], canon(r)[:120]),
+                         {"case": {kk: (v if kk != "ops" else v[: k + 1]) for kk, v in c.items()}, "impl": r, "storage_log": (o.get("storage_log") or [])[-6:]}, tag="cascade-fault")
     for c in cases[:2]:
         ck.sample({"state": c["state"], "ops": c["ops"][:8]})
     lr.finish_cov("dependency graphs over 2-7 ids (chains, fans, cycles, self-loops, dangling targets, random; facts, rules and property facts as nodes), deleted in random orders "
